@@ -248,9 +248,106 @@ def is_autocorrect_value(prog, e, depth=0):
     return False
 
 
+def autocorrect_paths(prog):
+    """Path summary of the auto-correct look-up, whatever its spelling (combinator chain, `match` with a guard, nested if-let):
+    {'fn': key, 'table': {(ascii, nul): kept?}, 'user_first': bool, 'bundled': bool} or None.
+    Every return path of the (smallest) function that consults the user map is classified by what it returns — the user's entry, the bundled
+    entry, nothing — and by the tests of the user's entry it passed (present?, is_ascii?, contains NUL?)."""
+    if getattr(prog, "_ac_paths", False) is not False:
+        return prog._ac_paths
+    from engine.analyses import sym_paths, PathLimit, contains_call
+    from . import roles as _roles
+    R = roles(prog)
+    res = None
+
+    def is_user_get(x):
+        return x.k == "call" and x.a[0].endswith("::get") and "HashMap" in x.a[0] and x.a[1] and self_path(x.a[1][0]) == (R["user_autocorrect"],)
+    cands = []
+    for k, f in prog.fns.items():
+        if f.get("kind") == "Closure" or (f.get("impl") or {}).get("self") != R["sug_ty"]:
+            continue
+        b0 = prog.raw_body(k)
+        if any(callee_name(t).endswith("::get") and "HashMap" in callee_name(t) and self_path(b0.expr_operand(t["args"][0])) == (R["user_autocorrect"],) for (_, t) in b0.calls()):
+            cands.append((len(b0.blocks), k))
+    for _, k in sorted(cands)[:1]:
+        b = _roles.ib_paths(prog, k)
+        try:
+            paths = sym_paths(b, 0, 4000)
+        except PathLimit:
+            break
+        rows = []
+        for path, env, conds in paths:
+            present = asc = nul = None
+            for (d, vals, allv, ty, bb) in conds:
+                d0 = strip_refs(d)
+                neg = False
+                while d0.k == "un" and d0.a[0] == "Not":
+                    d0 = strip_refs(d0.a[1])
+                    neg = not neg
+                if d0.k == "discr" and is_user_get(strip_refs(d0.a[0])):
+                    some = vals == (1,) or (vals == "otherwise" and 0 in allv and 1 not in allv)
+                    none = vals == (0,) or (vals == "otherwise" and 1 in allv and 0 not in allv)
+                    present = True if some else (False if none else present)
+                    continue
+                if ty != "bool" or d0.k != "call" or not any(is_user_get(x) for x in d0.walk()):
+                    continue
+                bv = (vals == (1,) or (vals == "otherwise" and allv == (0,)))
+                bv = (not bv) if neg else bv
+                if d0.a[0].endswith("is_ascii"):
+                    asc = bv
+                elif d0.a[0].endswith("::contains") and len(d0.a[1]) == 2:
+                    c = strip_refs(d0.a[1][1])
+                    if (is_const(c, "char") and const_val(c) == "\x00") or (is_const(c, "str") and const_val(c) == "\x00"):
+                        nul = bv
+            ret = env.get(0)
+            r0 = strip_refs(ret) if ret is not None else None
+            kind = "none"
+            if r0 is not None:
+                has_user = any(is_user_get(x) for x in r0.walk())
+                has_bundled = contains_call(r0, lambda n: n == "data::Data::search_corrected") is not None
+                if r0.k == "agg" and str(r0.a[0]).endswith("Option::None"):
+                    kind = "none"
+                elif has_bundled and not has_user:
+                    kind = "bundled"
+                elif has_user and not has_bundled:
+                    kind = "user"
+                elif has_user or has_bundled:
+                    kind = "mixed"
+                else:
+                    kind = "other"
+            rows.append((present, asc, nul, kind))
+        if not rows or any(r_[3] in ("mixed", "other") for r_ in rows):
+            break
+        table = {}
+        for a_ in (True, False):
+            for n_ in (True, False):
+                table[(a_, n_)] = any(r_[3] == "user" and r_[0] is not False and r_[1] in (None, a_) and r_[2] in (None, n_) for r_ in rows)
+        # the bundled entry is consulted only where the user's entry is absent or rejected
+        user_first = True
+        for r_ in rows:
+            if r_[3] in ("bundled", "none") and r_[0] is True:
+                # a present user entry was passed over: only allowed where the filter table rejects it for every value consistent with the path
+                consistent = [(a_, n_) for a_ in (True, False) for n_ in (True, False) if r_[1] in (None, a_) and r_[2] in (None, n_)]
+                if any(table[c_] for c_ in consistent) and (r_[1] is None and r_[2] is None):
+                    user_first = False
+        res = {"fn": k, "table": table, "user_first": user_first and any(r_[3] == "user" for r_ in rows), "bundled": any(r_[3] == "bundled" for r_ in rows)}
+    prog._ac_paths = res
+    return res
+
+
 def autocorrect_filter(prog):
     """The predicate user auto-correct values must pass before they are used, as a truth table over
     (is_ascii(value), value contains NUL): {(ascii, nul): kept?}; (closure key, table) or (None, None)."""
+    ck0, tt0 = _autocorrect_filter_shape(prog)
+    if tt0 is not None:
+        return ck0, tt0
+    ap = autocorrect_paths(prog)
+    if ap is not None:
+        return ap["fn"], ap["table"]
+    return None, None
+
+
+def _autocorrect_filter_shape(prog):
     from engine.analyses import truth_table
     lookups = autocorrect_lookup(prog)
     if len(lookups) != 1:
